@@ -1,0 +1,33 @@
+//go:build verif
+
+package tea
+
+// Contracts for govc (/verif). Comments only.
+//
+// C12 (part): the constructors accept exactly the documented keys, the block functions touch only the first
+// eight bytes of dst and panic only when a buffer is shorter than a block. The round function itself
+// (32-bit shifts and xors) is not interpreted.
+
+//@ func NewCipherWithRounds
+//@ props C12
+//@ ensures iff(result1 == nil, len(key) == 16 && rounds % 2 == 0) && iff(result0 != nil, result1 == nil)
+//@ canary ensures result1 != nil
+
+//@ func NewCipher
+//@ props C12
+//@ ensures iff(result1 == nil, len(key) == 16) && iff(result0 != nil, result1 == nil)
+//@ canary ensures result1 != nil
+
+//@ func (*tea).Encrypt
+//@ props C12
+//@ nonnil t
+//@ may_panic_when len(src) < 8 || len(dst) < 8
+//@ modifies dst[0:8]
+//@ canary ensures len(dst) == 0
+
+//@ func (*tea).Decrypt
+//@ props C12
+//@ nonnil t
+//@ may_panic_when len(src) < 8 || len(dst) < 8
+//@ modifies dst[0:8]
+//@ canary ensures len(dst) == 0
